@@ -24,6 +24,7 @@ EXPLANATION = (
     "same slack constant as its tests; hexcone: in-gamut RGB gives S, V (and L) in [0,1] on every ordering region, HWB = ((1-S)V, 1-V).  "
     "NOT decided: that the fitted cusp/intersection stays within tolerance of the true gamut for every hue (the property's main clause), "
     "HSL's S <= 1 for light colours, floating-point effects."
+    " OK-REF: the four Oklab <-> Okhsl / Okhsv conversion bodies against Ottosson's published algorithm on the documented ranges, helpers uninterpreted, shortcuts included."
 )
 
 # Ottosson, "Okhsv and Okhsl" (2021), reference implementation compute_max_saturation
